@@ -20,6 +20,8 @@ type half struct {
 	buf     []byte
 	wclosed bool // writer side closed: EOF after drain
 	rclosed bool // reader side closed: writes fail
+	// limit > 0: at most this many unread bytes (a receiver with a small window): a writer waits for the reader
+	limit int
 }
 
 const halfCap = 32 << 20
@@ -93,21 +95,42 @@ func (e *bufEnd) Write(p []byte) (int, error) {
 	h := e.w
 	h.mu.Lock()
 	defer h.mu.Unlock()
+	written := 0
 	for {
 		if e.isClosed() || h.rclosed {
-			return 0, io.ErrClosedPipe
+			return written, io.ErrClosedPipe
 		}
-		if len(h.buf) < halfCap {
-			break
+		room := halfCap - len(h.buf)
+		if h.limit > 0 {
+			room = h.limit - len(h.buf)
+		}
+		if room > 0 {
+			// without a limit a write goes in whole; under a limit it goes in as the reader makes room
+			n := len(p) - written
+			if h.limit > 0 && n > room {
+				n = room
+			}
+			h.buf = append(h.buf, p[written:written+n]...)
+			written += n
+			h.cond.Broadcast()
+			if written == len(p) {
+				return written, nil
+			}
+			continue
 		}
 		if d := e.deadline(false); !d.IsZero() && !time.Now().Before(d) {
-			return 0, os.ErrDeadlineExceeded
+			return written, os.ErrDeadlineExceeded
 		}
 		h.cond.Wait()
 	}
-	h.buf = append(h.buf, p...)
-	h.cond.Broadcast()
-	return len(p), nil
+}
+
+// SetWindow limits the bytes this end accepts unread from its peer (0: no limit).
+func (e *bufEnd) SetWindow(n int) {
+	e.r.mu.Lock()
+	e.r.limit = n
+	e.r.cond.Broadcast()
+	e.r.mu.Unlock()
 }
 
 func (e *bufEnd) Close() error {
